@@ -46,7 +46,7 @@ class Ctx:
 
     def need_coverage(self, r, actions):
         """Vacuity guard: every named action must have been taken at least once."""
-        missing = [a for a in actions if r.coverage.get(a, (0, 0))[1] == 0]
+        missing = [a for a in actions if r.coverage.get(a, (0, 0))[1] == 0 and r.coverage.get(a + "Any", (0, 0))[1] == 0]
         if missing:
             raise tlc.TLCError("vacuity guard: actions never taken: %s" % missing)
 
